@@ -695,7 +695,10 @@ func c01Err(w *World, r *Report, un, ma *ssa.Function) {
 		if ok && strings.HasSuffix(al.Type().String(), "encoding/xml.Name") {
 			fields, _ := complitFields(al)
 			sp, _ := stringConst(origin(fields["Space"]))
-			encNames = append(encNames, sp+" "+nf(fields["Local"]))
+			// (a name built in a helper from its parameter: one name per caller)
+			for _, lv := range originsAll(fields["Local"]) {
+				encNames = append(encNames, sp+" "+nf(lv))
+			}
 		}
 		if c, ok := in.(*ssa.Call); ok && w.callKey(c) == "encoding/xml.Encoder.EncodeToken" {
 			if mi, ok := c.Call.Args[1].(*ssa.MakeInterface); ok && strings.HasSuffix(mi.X.Type().String(), "xml.CharData") {
